@@ -119,6 +119,15 @@ static YR_AC_STATE* _yr_ac_queue_pop(QUEUE* queue)
 }
 
 ////////////////////////////////////////////////////////////////////////////////
+// Releases the nodes still in the queue. Used when one of the automaton's
+// passes is abandoned because of an error.
+//
+static void _yr_ac_queue_destroy(QUEUE* queue)
+{
+  while (queue->head != NULL) _yr_ac_queue_pop(queue);
+}
+
+////////////////////////////////////////////////////////////////////////////////
 // Checks if a queue is empty.
 //
 // Args:
@@ -239,7 +248,8 @@ static int _yr_ac_create_failure_links(YR_AC_AUTOMATON* automaton)
 
   while (state != NULL)
   {
-    FAIL_ON_ERROR(_yr_ac_queue_push(&queue, state));
+    FAIL_ON_ERROR_WITH_CLEANUP(
+        _yr_ac_queue_push(&queue, state), _yr_ac_queue_destroy(&queue));
     state->failure = root_state;
     state = state->siblings;
   }
@@ -272,7 +282,8 @@ static int _yr_ac_create_failure_links(YR_AC_AUTOMATON* automaton)
 
     while (transition_state != NULL)
     {
-      FAIL_ON_ERROR(_yr_ac_queue_push(&queue, transition_state));
+      FAIL_ON_ERROR_WITH_CLEANUP(
+        _yr_ac_queue_push(&queue, transition_state), _yr_ac_queue_destroy(&queue));
       failure_state = current_state->failure;
 
       while (1)
@@ -370,7 +381,8 @@ static int _yr_ac_optimize_failure_links(YR_AC_AUTOMATON* automaton)
 
   while (state != NULL)
   {
-    FAIL_ON_ERROR(_yr_ac_queue_push(&queue, state));
+    FAIL_ON_ERROR_WITH_CLEANUP(
+        _yr_ac_queue_push(&queue, state), _yr_ac_queue_destroy(&queue));
     state = state->siblings;
   }
 
@@ -389,7 +401,8 @@ static int _yr_ac_optimize_failure_links(YR_AC_AUTOMATON* automaton)
 
     while (state != NULL)
     {
-      FAIL_ON_ERROR(_yr_ac_queue_push(&queue, state));
+      FAIL_ON_ERROR_WITH_CLEANUP(
+        _yr_ac_queue_push(&queue, state), _yr_ac_queue_destroy(&queue));
       state = state->siblings;
     }
   }
@@ -588,7 +601,8 @@ static int _yr_ac_build_transition_table(YR_AC_AUTOMATON* automaton)
 
     yr_bitmask_set(automaton->bitmask, child_state->input + 1);
 
-    FAIL_ON_ERROR(_yr_ac_queue_push(&queue, child_state));
+    FAIL_ON_ERROR_WITH_CLEANUP(
+        _yr_ac_queue_push(&queue, child_state), _yr_ac_queue_destroy(&queue));
     child_state = child_state->siblings;
   }
 
@@ -596,8 +610,10 @@ static int _yr_ac_build_transition_table(YR_AC_AUTOMATON* automaton)
   {
     state = _yr_ac_queue_pop(&queue);
 
-    FAIL_ON_ERROR(_yr_ac_find_suitable_transition_table_slot(
-        automaton, automaton->arena, state, &slot));
+    FAIL_ON_ERROR_WITH_CLEANUP(
+        _yr_ac_find_suitable_transition_table_slot(
+            automaton, automaton->arena, state, &slot),
+        _yr_ac_queue_destroy(&queue));
 
     // _yr_ac_find_suitable_transition_table_slot can allocate more space in
     // both tables and cause the tables to be moved to a different memory
@@ -633,7 +649,8 @@ static int _yr_ac_build_transition_table(YR_AC_AUTOMATON* automaton)
 
       yr_bitmask_set(automaton->bitmask, child_state->t_table_slot);
 
-      FAIL_ON_ERROR(_yr_ac_queue_push(&queue, child_state));
+      FAIL_ON_ERROR_WITH_CLEANUP(
+        _yr_ac_queue_push(&queue, child_state), _yr_ac_queue_destroy(&queue));
 
       child_state = child_state->siblings;
     }
